@@ -221,6 +221,13 @@ func alphabet(r role) []call {
 	for _, k := range []string{"-1", "dealer", "other", "n", "255", "256", "256+dealer", "65536+other"} {
 		a = append(a, call{"ForceDisqualify(" + k + ")", "fd", idx[k], nil})
 	}
+	// every in-range participant index (incl. the instance's own one): "all dealers disqualified"
+	// and "own dealing disqualified" are states of their own
+	for p := 0; p < r.N; p++ {
+		if p != idx["dealer"] && p != idx["other"] {
+			a = append(a, call{fmt.Sprintf("ForceDisqualify(#%d)", p), "fd", p, nil})
+		}
+	}
 	bm := map[string][]byte{"empty": {}, "junk": {9, 1, 2}, "vector": vec, "complaint": complaint, "answer": answer}
 	for _, o := range order {
 		for _, mn := range []string{"empty", "junk", "vector", "complaint", "answer"} {
@@ -462,7 +469,7 @@ func main() {
 		return
 	}
 	ev.Par(len(roles), func(i int) { explore(roles[i], depth) })
-	run.Set("rule", "per (protocol, role): BFS from a fresh real instance over the call alphabet {Start(valid seed), Start(31-byte seed), NextTimeout, End, ForceDisqualify(-1|dealer|other|n|255|256|256+dealer|65536+other), HandleBroadcastMsg/HandlePrivateMsg(origin in {-1,self,dealer,other,n,256+dealer} x message in {empty, junk tag, recorded well-formed vector/complaint/answer/share})}; successor = deep clone + real call; states deduplicated by (canonical hash of every instance field, model state); explored to fixpoint below the depth cap (depth_cap_hit reports whether the cap cut anything). Each call's error class and Running() are compared with the documented state machine; every rejected call is checked for non-interference (equal canonical state, else all continuations to depth 3). distinct_nontrivial = distinct reachable (instance state) classes.")
+	run.Set("rule", "per (protocol, role): BFS from a fresh real instance over the call alphabet {Start(valid seed), Start(31-byte seed), NextTimeout, End, ForceDisqualify(every index 0..n-1 incl. its own|-1|n|255|256|256+dealer|65536+other), HandleBroadcastMsg/HandlePrivateMsg(origin in {-1,self,dealer,other,n,256+dealer} x message in {empty, junk tag, recorded well-formed vector/complaint/answer/share})}; successor = deep clone + real call; states deduplicated by (canonical hash of every instance field, model state); explored to fixpoint below the depth cap (depth_cap_hit reports whether the cap cut anything). Each call's error class and Running() are compared with the documented state machine; every rejected call is checked for non-interference (equal canonical state, else all continuations to depth 3). distinct_nontrivial = distinct reachable (instance state) classes.")
 	run.Set("depth_cap", depth)
 	run.Assume("reuse after End (Start after End) is outside the quantifier", "well-formed messages come from an honest dealer run with the same parameters")
 	run.Finish()
